@@ -65,6 +65,20 @@ def plan(tier, seed):
 def lib_id(gens, n, fmt="mat"):
     from htstabilizer.stabilizer import Stabilizer
     from htstabilizer.lc_classes import determine_lc_class
+    if fmt in ("rebind", "inplace"):
+        # the way the repository's own test helper builds stabilizers: a template object whose public R / S are
+        # overwritten afterwards (rebound, or edited in place)
+        from htstabilizer.graph import Graph
+        R, S, ph = ws.matrices(gens, n)
+        s = Stabilizer(Graph(n)) if fmt == "rebind" else Stabilizer((np.eye(n, dtype=np.int8), np.zeros((n, n), dtype=np.int8)))
+        if fmt == "rebind":
+            s.R, s.S = R, S
+        else:
+            s.R[:] = R
+            s.S[:] = S
+        s.phases = ph
+        ok, r = call(lambda: determine_lc_class(s).id())
+        return int(r) if ok else "exc:" + exc_name(r)
     if fmt == "mat":
         R, S, ph = ws.matrices(gens, n)
         s = Stabilizer((R, S, ph))
@@ -130,7 +144,7 @@ def work(task):
                     sequence_on_object(p, gens, n, label)
                 if frac >= 1.0 or rnd.random() < frac:
                     alt = groups.random_presentation([(x, z, rnd.getrandbits(1)) for x, z, s in gens], n, rnd)
-                    cid2 = lib_id(alt, n, "str" if rnd.random() < 0.3 else "mat")
+                    cid2 = lib_id(alt, n, ("str", "mat", "mat", "rebind", "inplace")[p.evals % 5])
                     p.evals += 1
                     p.counters["re-presentations"] += 1
                     if cid2 != cid:
@@ -160,7 +174,7 @@ def work(task):
         for label in labels:
             for _ in range(reps):
                 m = ws.member(label, n, rnd, orb[label])
-                cid = lib_id(m["gens"], n, "str" if rnd.random() < 0.5 else "mat")
+                cid = lib_id(m["gens"], n, ("str", "mat", "rebind", "inplace")[_ % 4])
                 p.evals += 1
                 p.counters["n=6 random members"] += 1
                 if label != 0:
@@ -222,6 +236,19 @@ def work(task):
                 continue
             reps[(n, i)] = graph_label(g, n)
             p.counters["representative graphs"] += 1
+            # the caller edits the representative it was given (and a Stabilizer built from it); a representative fetched
+            # afterwards must be unaffected
+            from htstabilizer.stabilizer import Stabilizer as _St
+            ok_s, st_ = call(_St, g)
+            call(g.remove_all_edges_to, 0)
+            call(g.add_edge, 0, n - 1)
+            if ok_s:
+                call(lambda: st_.S.fill(0))
+            ok, g3 = call(lambda: cls(i).get_graph())
+            if ok and graph_label(g3, n) != reps[(n, i)]:
+                p.violate("representative-graph-aliased n=%d id=%d" % (n, i),
+                          "LCClass%d(%d).get_graph() lies in orbit %d after the caller edited a previously returned representative (orbit %d before)"
+                          % (n, i, graph_label(g3, n), reps[(n, i)]), {"kind": "classes", "n": n})
             # the same questions on ONE object, in the order a user would ask them
             ok, r2 = call(lambda: (lambda c: (c.id(), str(c), c.get_graph(), c.id(), c.get_graph()))(cls(i)))
             if not ok:
